@@ -15,7 +15,7 @@ theorem spec_emitSig_some {g' : Nat} {P : Prog} {t : Spec.LSt} {fl : Flavour} {i
     (hg0 : aget t.sigs i = some g0) (hk2 : t.k2 = true) :
     Spec.emitSig (g'+1) P t fl (some i) arg strat =
       if (!fl.isAcc && g0.cells.isEmpty) = true then some (t, .ok, 0) else
-      match (if fl.isAcc = true then Spec.runStrat g' P (specStart t i g0) i (specSnap fl g0) arg strat
+      match (if fl.isAcc = true then Spec.runStrat g' P (specStart t i g0) i (specSnap fl g0) arg (strat.forFlavour fl)
              else Spec.turns g' P (specStart t i g0) i (specSnap fl g0) arg 0) with
       | none => none
       | some (t2, o, v) =>
@@ -23,7 +23,7 @@ theorem spec_emitSig_some {g' : Nat} {P : Prog} {t : Spec.LSt} {fl : Flavour} {i
         | none => some (t2.fail "emit: list died during its emission", o, v)
         | some g2 => some (Spec.collect (Spec.gcSig (Spec.setSig t2 i (specEpi g2 t.next)) i), o, v) := by
   cases t with
-  | mk tT tS tG tC tK tsigs tOT tOK tn td tst ttr terr k1 k2 =>
+  | mk tT tS tG tC tK tsigs tOT tOK tOG tn td tst ttr terr k1 k2 =>
   simp only at hk2 hg0
   subst hk2
   rw [Spec.emitSig]
@@ -93,19 +93,19 @@ theorem emit_sim (f : Nat) (hst : StratS f) (hl : LoopS f) : EmitS (f+1) := by
         · contradiction
         · rename_i s2 o2 v2 hr2
           have hr2' : (if fl.isAcc = true then
-                Model.runStrat f P (Emit.emitStart s i im) i (Emit.emitFirst s im) s.next arg strat
+                Model.runStrat f P (Emit.emitStart s i im) i (Emit.emitFirst s im) s.next arg (strat.forFlavour fl)
               else Model.emitLoop f P (Emit.emitStart s i im) i (Emit.emitFirst s im) s.next arg 0) = some (s2, o2, v2) := hr2
           -- the loop / the accumulator on both sides
           have hloop : Emit.Good0 (Emit.emitStart s i im) s2 ∧ ∃ t2,
-              (if fl.isAcc = true then Spec.runStrat g' P (specStart t i g0) i (specSnap fl g0) arg strat
+              (if fl.isAcc = true then Spec.runStrat g' P (specStart t i g0) i (specSnap fl g0) arg (strat.forFlavour fl)
                else Spec.turns g' P (specStart t i g0) i (specSnap fl g0) arg 0) = some (t2, o2, v2) ∧ R s2 t2 := by
             cases hacc : fl.isAcc with
             | true =>
               simp only [hacc, if_true] at hr2' ⊢
-              refine ⟨(Emit.all_ok f).strat P _ i _ s.next arg strat (Emit.skel im) tl s2 o2 v2 h1 hb1
+              refine ⟨(Emit.all_ok f).strat P _ i _ s.next arg (strat.forFlavour fl) (Emit.skel im) tl s2 o2 v2 h1 hb1
                 (by rw [hB]; exact hcur) hr2', ?_⟩
               rw [specSnap_acc hacc hr]
-              exact hst P _ _ i _ s.next arg strat (Emit.cids im) _ s2 o2 v2 h1 hR1 hb1 hB
+              exact hst P _ _ i _ s.next arg (strat.forFlavour fl) (Emit.cids im) _ s2 o2 v2 h1 hR1 hb1 hB
                 (by rw [hcur]; rfl) hr2' g' hg'
             | false =>
               simp only [hacc, Bool.false_eq_true, if_false] at hr2' ⊢
